@@ -202,7 +202,7 @@ def shrink(binp, prop, tier, plan_lines, target, engine, budget=400, vstep=None)
     runs = [0]; t_start = time.time()
 
     def fails(st):
-        if runs[0] >= budget or time.time() - t_start > 240:      # minimisation is time-boxed (a hanging call costs its full limit per replay)
+        if runs[0] >= budget or time.time() - t_start > (60 if 'hang' in target else 240):      # minimisation is time-boxed (a hanging call costs its full limit per replay)
             return False
         runs[0] += 1
         r = exec_plan(binp, prop, tier, [head] + st)
@@ -466,7 +466,7 @@ def main():
                 continue
         else:
             agg['gate_pairs'] += gate_n
-        n_viol_before = len(violations_out)
+        n_viol_before = len(violations_out); explained = [False]
 
         cfg_v = {}
         for widx, (rc, out, err) in enumerate(res):
@@ -503,6 +503,10 @@ def main():
             gkey = sigkey(v)
             if gkey in global_sigs:
                 # same signature already confirmed and minimised on another configuration
+                # (re-executed twice here as well, so that it may count as the explanation of a gate mismatch on this configuration)
+                q1 = exec_plan(binp, prop, args.tier, v['plan'])
+                if q1['violation'] is not None and sigkey(q1['violation']) == gkey:
+                    explained[0] = True
                 global_sigs[gkey]['also_on'].append(c['id']); continue
             if len(global_sigs) >= MAX_MINIMISED and not args.keep_going:
                 rp = write_replay(prop, c, v['plan'], v, [], rev, args, minimised=False)
@@ -543,7 +547,7 @@ def main():
             ent = {'also_on': []}; global_sigs[gkey] = ent
             violations_out.append((prop, rp, '%s on %s: %s' % (vv['sig'], c['id'], vv['detail'][:300]), ent))
         if gate_problem:
-            if len(violations_out) > n_viol_before:
+            if len(violations_out) > n_viol_before or explained[0]:
                 print('[check] %s: runs depend on the preceding runs of their worker (cross-run state); explained by the confirmed violation(s) above' % c['id'])
             else:
                 harness_problems.append(gate_problem)
